@@ -1,9 +1,14 @@
 import NetqasmVerif.Driver.Codec
 import NetqasmVerif.Driver.Gates
 import NetqasmVerif.Driver.Toolbox
+import NetqasmVerif.Driver.Bell
 open Lean NQ.Drv
 
-def handlers : List (String → Json → Option Json) := [handleCodec, handleGates, handleToolbox]
+def handlers : List (String → Json → Option Json) := [
+  handleCodec,
+  handleGates,
+  handleToolbox,
+  handleBell]
 
 def dispatch (j : Json) : Json :=
   match (jField? j "op").bind jStr? with
